@@ -540,6 +540,13 @@ theorem simulation_bithl_partial (b2 : Nat) : ∀ b : Fin 8, SimulatesCbMemSF (o
 
 example : opcodeBitHl 0 = 0x46 ∧ opcodeBitHl 7 = 0x7e := by decide
 
+/-- **simulation_rthl_partial**: RL (HL) and RR (HL), for all states whose F has a clear low nibble and any bus: the wrapper of
+`simulation_rmw_partial` around the register form of RL / RR at the template's offsets (`X86.rt_body_at`: carry preamble, rotate
+through carry, flag conversion, Z tail); the status byte is left at 0 or 0x80 -/
+theorem simulation_rthl_partial (b2 : Nat) : ∀ k : Rt2, SimulatesCbMemSF (opcodeRtHl k) b2 := fun k => sim_rthl k b2
+
+example : opcodeRtHl .rl = 0x16 ∧ opcodeRtHl .rr = 0x1e := by decide
+
 /-- the opcodes covered are the SM83's: LD B,C = 0x41, LD A,n = 0x3E, LD SP,nn = 0x31, DEC HL = 0x2B -/
 example : opcodeLd8 .B .C = 0x41 ∧ opcodeLdI .A = 0x3e ∧ opcodeLd16 .SP = 0x31 ∧ opcodeDec16 .HL = 0x2b := by decide
 
